@@ -9,7 +9,7 @@ for i in ids:
     prop = i.split("_")[0]
     extra = os.environ.get("SEED_EXTRA_PROPS", "").split()
     t0 = time.time()
-    r = subprocess.run([os.path.join(HERE, "lib", "mutant_run.py"), os.path.join(HERE, "seeded", i, "patch.diff"), prop] + extra + ["--tier", tier],
+    r = subprocess.run([os.path.join(HERE, "lib", "mutant_run.py"), (os.path.join(HERE, "seeded", i, "patch_rebased.diff") if os.path.exists(os.path.join(HERE, "seeded", i, "patch_rebased.diff")) else os.path.join(HERE, "seeded", i, "patch.diff")), prop] + extra + ["--tier", tier],
                        capture_output=True, text=True)
     lines = r.stdout.strip().splitlines()
     verdicts = [l for l in lines if not l.startswith(" ") and (" CAUGHT" in l or " MISSED" in l or " INCONCLUSIVE" in l or "ERROR" in l or "PATCH FAILED" in l)]
